@@ -250,7 +250,7 @@ def _validated_symbols(tr):
     """Atoms that stand for validated values: leaves and conditions of the terms returned by _validate_X/_validate_y."""
     syms = set()
     for e in tr.events:
-        if e.kind == "store" and e.func.name.startswith("_validate"):
+        if e.kind == "store" and (e.func.name.startswith("_validate") or any(f.name.startswith("_validate") for f in e.stack)):
             # what validation records (column names, width) is validated state
             for _c, leaf in q.ite_leaves(e.value):
                 la = leaf.single_atom()
@@ -292,8 +292,8 @@ def validate_first(ctx, cname, meth):
     seen = set()
     for e in tr.events:
         fn = e.func
-        if fn is None or fn.name.startswith("_validate"):
-            continue
+        if fn is None or fn.name.startswith("_validate") or any(f.name.startswith("_validate") for f in e.stack):
+            continue  # inside validation (or a helper validation calls): that is where raw arguments are allowed
         terms = []
         if e.kind == "call":
             fi = e.d.get("fi")
